@@ -198,6 +198,7 @@ def oracle_C05(scen, obs):
     invs = obs.get('invocations', [])
     # a candidate that is cancelled while its script lists the directory yields a truncated manifest (the directory is
     # being removed under it); a missing test case counts only when it is systematic
+    EMPTY = ('', 'da39a3ee5e6b4b0d3255bfef95601890afd80709')
     miss = [inv for inv in invs if set(tcs) - {norm(k) for k in inv['files']}]
     systematic_missing = len(miss) >= 2 and len(miss) * 2 >= len(invs) or (scen.get('N') == 1 and miss)
     if '..' in ''.join(scen['test_cases']) and invs:
@@ -206,10 +207,14 @@ def oracle_C05(scen, obs):
             return 'test-case-outside-private-directory'
     for inv in invs:
         cwd = inv.get('cwd')
+        if not cwd or not inv['files']:
+            continue        # a script that started after its directory was removed (cancelled candidate on a loaded machine): nothing to judge
         if cwd in seen_cwd:
             return 'test-directory-reused'
         seen_cwd.add(cwd)
         files = {norm(k): v for k, v in inv['files'].items()}
+        if any(v == '' for v in files.values()):
+            continue        # listed while the directory was being removed under it (cancelled candidate)
         extra = sorted(set(files) - set(tcs))
         missing = sorted(set(tcs) - set(files))
         if extra:
